@@ -90,6 +90,7 @@ func (e *Executor) Execute(proposals []*proposal.Proposal) error {
 		}
 		messageID := batch.proposals[0].MessageID
 
+		i := i
 		b := batch
 		p.Go(func() error {
 			propHash, err := e.bridge.ProposalsHash(b.proposals)
